@@ -322,6 +322,7 @@ PROPS = {
         "bridge": RENDER + NODES,
         "extra_modules": ["Convergen.Props.BuilderInv", "Convergen.Props.Cover"],
         "sweeps": [sweep_front("nesting", 120, 4000, cats=["body", "slice", "stderr"]),
+                   sweep_front("plain", 80, 3000, cats=["body", "slice", "stderr"]),
                    sweep_front("imports", 80, 2000, cats=["body", "slice", "stderr"]),
                    sweep_front("mixed", 60, 2000, cats=["body", "slice", "stderr"])],
         "rule": FRONT_RULE % "nesting" + SPEC_RULE,
